@@ -55,6 +55,10 @@ CHECKS = {
    "PROVED per production / lexer rule (all values, operand counts and layouts): each action builds the documented node from its right-hand-side values in order (spec keyed by the grammar symbols of the statement), same-class operands are spliced and others kept (n-ary flattening), range / comparison inclusiveness and field names come from the token texts, numerals keep their value, a reserved word is an operator iff it is the whole token text; the result's fingerprint depends on texts and children only (layout independence). FINITE, exhaustive: loaded LALR tables equal an in-memory regeneration; conflict resolution in every state holding a completed AND/OR item is the mandated one (the + - TO entries are the recorded finding KF-D4). BOUNDED: precedence end to end is decided by a differential check against an independent reference parser written from the statement, over every accepted token sequence of <= 5 (quick) / 6 tokens in two whitespace layouts - hence level exploration.",
    "A1-A10 for the proved clauses; no mechanised LR meta-theory: the end-to-end clause is bounded by token-sequence length. Known finding KF-D4 identified by the LALR table entries its runs use.",
    "contract-based deductive verification of every grammar action and of the reserved-word rule (z3) + exhaustive finite audit of the live LALR tables + bounded differential testing against a reference parser"),
+ "C11": ("exploration", "3.C11",
+   "The statement needs the parser on a CONSTRUCTED string (parse of print); no contract within reach decides the LR automaton's behaviour on all strings, so it is decided by a BOUNDED stand-in: for every query from accepted token sequences of <= 4 (quick) / 6 tokens and each of 8 transformer configurations (copy, resolver x 4 targets, open ranges with / without merging, auto_head_tail), the transformed tree printed and parsed again has the same truth table over the same atoms (term, field path, modifiers), implicit operations of the re-parsed tree being read with the transformer's own convention. The output contracts of the transformers (Copy, Res, Res12 + merge invariant, Aht) are PROVED for all trees (same obligations as C08-T, C10-R, C12, C13-A) and are re-run here.",
+   "bounded by token-sequence length; truth-table semantics of trees in bounded/meaning.py. Known findings KF-D9 (resolver output needs groups) and KF-D14 (operator word glued to an operand without a following blank).",
+   "bounded exhaustive re-parse check (native) on top of the deductively proved transformer output contracts"),
 }
 PENDING = {
 }
